@@ -144,7 +144,7 @@ def allB {α} (l : List α) (p : α → Bool) : Bool := l.all p
   * phase and the swept prefix are unchanged; new objects are appended to the heap list, fresh,
     coloured by the allocation rule (marked iff a cycle is running; also gray while marking);
   * an existing object's mark bit changes only from white to marked, only while marking, and
-    the object is then pushed gray (write barrier);
+    the object is reachable (it is the value being stored) and is then pushed gray (write barrier);
   * the gray stack only grows, by marked allocated objects, and only while marking;
   * every child that was not there before, and every root, is reachable in `σ` or newly allocated;
   * while marking, a marked non-gray object gets only marked new children (insertion barrier). -/
@@ -160,7 +160,7 @@ def mutatorOKb (σ σ' : St) (fuel : Nat) : Bool :=
   allB new (fun a => σ.phase != .marking || σ'.gray.contains a) &&
   allB σ.heap (fun a =>
     σ'.marked a == σ.marked a ||
-      (σ.phase == .marking && !σ.marked a && σ'.marked a && σ'.gray.contains a)) &&
+      (σ.phase == .marking && !σ.marked a && σ'.marked a && σ'.gray.contains a && R.contains a)) &&
   (let k := σ'.gray.length - σ.gray.length
    decide (σ'.gray.drop k = σ.gray) && decide (σ.gray.length ≤ σ'.gray.length) &&
    allB (σ'.gray.take k) (fun a => σ'.heap.contains a && σ'.marked a) &&
